@@ -19,6 +19,7 @@ func runTreeViaMiddleware(pats, probes []string) SL {
 		return nil
 	}
 	res := make(SL, len(probes))
+	_ = m.Config() // a read in between must not matter
 	for i, o := range probes {
 		out := serveOnce(m, reqT{method: "GET", hdrs: http.Header{"Origin": {o}}}, http.Header{})
 		v := out.hdrs["Access-Control-Allow-Origin"]
@@ -178,15 +179,25 @@ func runTree(pats, probes []string) (res SL, elems []string, npat int) {
 		npat++
 		t.Insert(&p)
 	}
-	for _, o := range probes {
-		og, ok := origins.Parse(o)
-		if !ok {
-			res = append(res, Y("noparse"))
-			continue
+	probe := func() (out SL) {
+		for _, o := range probes {
+			og, ok := origins.Parse(o)
+			if !ok {
+				out = append(out, Y("noparse"))
+				continue
+			}
+			out = append(out, Bool(t.Contains(&og)))
 		}
-		res = append(res, Bool(t.Contains(&og)))
+		return out
 	}
-	return res, t.Elems(), npat
+	// rendering the tree (Elems, as Config() does) is a read: verdicts before and after it must coincide
+	before := probe()
+	elems = t.Elems()
+	res = probe()
+	if str(before) != str(res) || strings.Join(elems, "\x00") != strings.Join(t.Elems(), "\x00") {
+		res = append(res, Y("elems-changed-the-tree"))
+	}
+	return res, elems, npat
 }
 
 func famTree(o *Out, r R, tier string) {
